@@ -64,17 +64,17 @@ theorem seqAppend_isAdd_before_rem (d : List Op) (k n : Nat) (e : Op) (he : e.is
     from `a` up to position `i`; `strict`: every key so far is smaller than `i` -/
 def CharSt (a b : List Char) (di : List Op) (i j : Nat) (strict : Bool) : Prop :=
   ∃ cops, NoPat cops ∧ di = cops.map toOpC ∧ BuiltC a b cops i j ∧ (∀ o ∈ di, o.idx ≤ i) ∧
-    (strict = true → ∀ o ∈ di, o.idx < i)
+    (strict = true → ∀ o ∈ di, o.idx < i) ∧ Strict di
 
 theorem CharSt.init (a b : List Char) : CharSt a b [] 0 0 true :=
-  ⟨[], fun _ h => absurd h (by simp), rfl, BuiltC.init a b, by simp, by simp⟩
+  ⟨[], fun _ h => absurd h (by simp), rfl, BuiltC.init a b, by simp, by simp, Strict.nil⟩
 
 /-- an `equal` block: the characters are copied -/
 theorem CharSt.keepN (a b : List Char) (di : List Op) (i j n : Nat) (st : Bool) (h : CharSt a b di i j st)
     (hn : 0 < n) (hi : i + n ≤ a.length) (hj : j + n ≤ b.length)
     (heq : slice' a i (i + n) = slice' b j (j + n)) : CharSt a b di (i + n) (j + n) true := by
-  obtain ⟨cops, h1, h2, h3, h4, _⟩ := h
-  refine ⟨cops, h1, h2, ?_, fun o ho => by have := h4 o ho; omega, fun _ o ho => by have := h4 o ho; omega⟩
+  obtain ⟨cops, h1, h2, h3, h4, _, h6⟩ := h
+  refine ⟨cops, h1, h2, ?_, fun o ho => by have := h4 o ho; omega, fun _ o ho => by have := h4 o ho; omega, h6⟩
   clear hn h4
   induction n with
   | zero => simpa using h3
@@ -109,7 +109,7 @@ theorem CharSt.gap (a b : List Char) (di : List Op) (i j n : Nat) (cs : List Cha
     (h : CharSt a b di i j true) (hcs : cs = slice' b j (j + cs.length)) (hjb : j + cs.length ≤ b.length)
     (hN : i + n ≤ a.length) :
     CharSt a b (seqAddchars (seqRemoverange di i n) i cs) (i + n) (j + cs.length) false := by
-  obtain ⟨cops, h1, h2, h3, h4, h5⟩ := h
+  obtain ⟨cops, h1, h2, h3, h4, h5, h6⟩ := h
   have hlt : ∀ o ∈ di, o.idx < i := h5 rfl
   have nopat1 : ∀ e : POp Char, e.isPat = false → NoPat (cops ++ [e]) := fun e he =>
     h1.append (fun x hx => by simp at hx; subst hx; exact he)
@@ -119,10 +119,11 @@ theorem CharSt.gap (a b : List Char) (di : List Op) (i j n : Nat) (cs : List Cha
     · have hv' : cs = [] := by simpa using hv
       subst hv'
       simp only [seqRemoverange, seqAddchars, beq_self_eq_true, if_true, List.isEmpty_nil, List.length_nil, Nat.add_zero]
-      exact ⟨cops, h1, h2, h3, h4, by simp⟩
+      exact ⟨cops, h1, h2, h3, h4, by simp, h6⟩
     · simp only [seqRemoverange, seqAddchars, beq_self_eq_true, if_true, hv, Bool.false_eq_true, if_false]
       rw [seqAppend_end di (.addchars i cs) (by simpa [Op.idx] using hlt)]
-      refine ⟨cops ++ [.add i cs], nopat1 _ rfl, by simp [h2, toOpC], ?_, ?_, by simp⟩
+      refine ⟨cops ++ [.add i cs], nopat1 _ rfl, by simp [h2, toOpC], ?_, ?_, by simp,
+        h6.snoc (by simpa [okEntry] using hv) (fun o ho => Or.inl (by simpa [Op.idx] using hlt o ho))⟩
       · have := BuiltC.push a b cops i j (.add i cs) h3 rfl (by simpa [POp.out] using hcs) (by simpa [POp.out] using hjb)
           (by simp [POp.eat]; omega)
         simpa [POp.eat, POp.out] using this
@@ -138,7 +139,8 @@ theorem CharSt.gap (a b : List Char) (di : List Op) (i j n : Nat) (cs : List Cha
     · have hv' : cs = [] := by simpa using hv
       subst hv'
       simp only [hrem, seqAddchars, List.isEmpty_nil, if_true, List.length_nil, Nat.add_zero]
-      refine ⟨cops ++ [.rem i n], nopat1 _ rfl, by simp [h2, toOpC], ?_, ?_, by simp⟩
+      refine ⟨cops ++ [.rem i n], nopat1 _ rfl, by simp [h2, toOpC], ?_, ?_, by simp,
+        h6.snoc (by simp [okEntry]; omega) (fun o ho => Or.inl (by simpa [Op.idx] using hlt o ho))⟩
       · have := BuiltC.push a b cops i j (.rem i n) h3 rfl (by simp [POp.out, slice'_self]) (by simp [POp.out]; omega)
           (by simpa [POp.eat] using hN)
         simpa [POp.eat, POp.out] using this
@@ -149,8 +151,16 @@ theorem CharSt.gap (a b : List Char) (di : List Op) (i j n : Nat) (cs : List Cha
         · simp [Op.idx]
     · simp only [hrem, seqAddchars, hv, Bool.false_eq_true, if_false]
       rw [seqAppend_isAdd_before_rem di i n (.addchars i cs) rfl rfl hlt]
+      have s1 : Strict (di ++ [.addchars i cs]) :=
+        h6.snoc (by simpa [okEntry] using hv) (fun o ho => Or.inl (by simpa [Op.idx] using hlt o ho))
+      have s2 : Strict (di ++ [.addchars i cs] ++ [.removerange i n]) :=
+        s1.snoc (by simp [okEntry]; omega) (fun o ho => by
+          simp only [List.mem_append, List.mem_singleton] at ho
+          rcases ho with ho | rfl
+          · exact Or.inl (by simpa [Op.idx] using hlt o ho)
+          · exact Or.inr ⟨rfl, rfl, rfl⟩)
       refine ⟨cops ++ [.add i cs] ++ [.rem i n], (nopat1 _ rfl).append (fun x hx => by simp at hx; subst hx; rfl),
-        by simp [h2, toOpC], ?_, ?_, by simp⟩
+        by simp [h2, toOpC], ?_, ?_, by simp, by simpa [List.append_assoc] using s2⟩
       · have s1 := BuiltC.push a b cops i j (.add i cs) h3 rfl (by simpa [POp.out] using hcs) (by simpa [POp.out] using hjb)
           (by simp [POp.eat]; omega)
         simp only [POp.eat, POp.out, Nat.add_zero] at s1
@@ -260,21 +270,21 @@ theorem opcodesToDiff_ok (a b : List Char) (ocs : List Opcode) (i j : Nat) (last
 /-- `diff_strings_by_char`: an ordered in-bounds chain of character entries that rebuilds `b` from `a` -/
 theorem diffStringsByChar_ok (O : Oracle) (hO : ∀ a b ocs, O.opcodes a b = .ok ocs → opcodesValid a b ocs = true)
     (a b : List Char) (d : List Op) (h : diffStringsByChar O a b = .ok d) :
-    ∃ cops, NoPat cops ∧ d = cops.map toOpC ∧ ChainFrom a.length 0 cops ∧ pf cops 0 a = b := by
+    ∃ cops, NoPat cops ∧ d = cops.map toOpC ∧ ChainFrom a.length 0 cops ∧ pf cops 0 a = b ∧ Strict d := by
   unfold diffStringsByChar at h
   by_cases hab : (a == b) = true
   · simp only [hab, if_true, Except.ok.injEq] at h
     subst h
     have : a = b := by simpa using hab
     subst this
-    exact ⟨[], fun _ hx => absurd hx (by simp), rfl, trivial, by simp [pf]⟩
+    exact ⟨[], fun _ hx => absurd hx (by simp), rfl, trivial, by simp [pf], Strict.nil⟩
   · simp only [hab, Bool.false_eq_true, if_false, bind, Except.bind] at h
     cases ho : O.opcodes a b with
     | error e => simp [ho] at h
     | ok ocs =>
       simp only [ho] at h
       have hv := hO a b ocs ho
-      obtain ⟨st, cops, c1, c2, c3, _, _⟩ := opcodesToDiff_ok a b ocs 0 0 false [] d hv (by simpa using CharSt.init a b) h
-      exact ⟨cops, c1, c2, c3.2, Built.done a b cops c3.1⟩
+      obtain ⟨st, cops, c1, c2, c3, _, _, c6⟩ := opcodesToDiff_ok a b ocs 0 0 false [] d hv (by simpa using CharSt.init a b) h
+      exact ⟨cops, c1, c2, c3.2, Built.done a b cops c3.1, c6⟩
 
 end Nbdime
